@@ -21,7 +21,8 @@
 (*   AddEvent, Schedule, Unschedule, Tick   the environment                 *)
 (* Defects (a set of strings) switches in the mutants used to show that the *)
 (* invariants bite: "delete_first", "le_expiry", "short_batch",             *)
-(* "ignore_scheduled", "prune_newest".                                       *)
+(* "ignore_scheduled", "finished_is_done" (an instance with a /finished       *)
+(* record is taken to be unscheduled), "prune_newest".                       *)
 EXTENDS ArchiveOps, TLC
 
 CONSTANTS
@@ -69,7 +70,8 @@ NoRead == [inst |-> "-", cnt |-> <<>>, ncrash |-> 0, window |-> {}, gone |-> {}]
 Init == st = [now |-> Now0, live |-> {}, known |-> {}, sched |-> {}, eversched |-> {},
               snaps |-> {}, nextseq |-> 0, pruned |-> {}, pbefore |-> {}, pmax |-> 0,
               pruneok |-> TRUE, seeded |-> 0, nenv |-> 0, ncrash |-> 0, nruns |-> 0,
-              nprunes |-> 0, pad |-> 0, nreads |-> 0, rd |-> NoRead, rpart |-> NoRead]
+              nprunes |-> 0, pad |-> 0, nreads |-> 0, rd |-> NoRead, rpart |-> NoRead,
+              fin |-> {}]      \* instances with a /finished record (trace mode)
             @@ [Volatile EXCEPT !.pc = "setup"]
 
 (* ---- population ---------------------------------------------------------- *)
@@ -89,7 +91,9 @@ Seed(id, ts) ==
 StartRun ==
   /\ st.pc = "idle" /\ st.nruns < MaxRuns
   /\ st' = [st EXCEPT !.pc = "listing", !.tolist = Shards, !.cand = {}, !.nruns = @ + 1,
-                      !.ssnap = IF "ignore_scheduled" \in Defects THEN {} ELSE st.sched]
+                      !.ssnap = IF "ignore_scheduled" \in Defects THEN {}
+                                ELSE IF "finished_is_done" \in Defects THEN st.sched \ st.fin
+                                ELSE st.sched]
 
 ListShard(s) ==
   /\ st.pc = "listing" /\ s \in st.tolist
@@ -176,7 +180,15 @@ Schedule(i) ==
 
 Unschedule(i) ==
   /\ EnvOk /\ Mode = "trace" /\ i \in st.sched
-  /\ st' = [st EXCEPT !.sched = @ \ {i}, !.nenv = @ + 1]
+  /\ st' = [st EXCEPT !.sched = @ \ {i}, !.fin = @ \cup {i}, !.nenv = @ + 1]
+
+(* a server that no longer owns the placement publishes a stale terminal event: *)
+(* publish() writes /finished/<i> but leaves /scheduled/<i> alone (the instance *)
+(* runs elsewhere) - finished AND scheduled is a legal state, and the instance   *)
+(* counts as live for the archiver                                               *)
+StaleFinish(i) ==
+  /\ EnvOk /\ Mode = "trace" /\ i \in st.sched /\ i \notin st.fin
+  /\ st' = [st EXCEPT !.fin = @ \cup {i}, !.nenv = @ + 1]
 
 Tick(d) ==
   /\ EnvOk /\ d \in Ticks /\ (st.pc # "listing" \/ TickInListing)
@@ -238,6 +250,7 @@ Next ==
   \/ \E id \in SpareIds : AddEvent(id)
   \/ \E i \in NewInsts : Schedule(i)
   \/ \E i \in AllInsts : Unschedule(i)
+  \/ \E i \in AllInsts : StaleFinish(i)
   \/ \E d \in Ticks : Tick(d)
   \/ Idle
   \/ \E i \in ReadObjs : Read(i)
